@@ -45,6 +45,8 @@ THEOREMS = [
     "Ymq.C08.sqrt_mod_u64_factor_base",
     "Ymq.C08.sqrt_mod_uint_3mod4",
     "Ymq.C08.invert_total",
+    "Ymq.C08.perfect_power_root_primitive",
+    "Ymq.C08.invert_two",
 ]
 HYPOTHESES = []
 PROFILES = ["release", "chk"]
@@ -52,7 +54,8 @@ TIMEOUT = 60.0
 W = 1 << 64
 RULE = ("divisors: all primes < 2^12, primes adjacent to every 2^b (b <= 30), random 30-bit primes, accepted composites, "
         "rejected values; operands: 0, p-1, p, multiples of p adjacent to 2^16..2^64, 2^127, 2^128, i64::MIN/MAX, "
-        "multiword values with all-ones/zero words; whole finite domains through the bulk ops; "
+        "multiword values with all-ones/zero words; whole finite domains through the bulk ops (modu16: every prime < 2^16 x every n; "
+        "inverter: every x for every prime < 2^12; sqrt_mod: every residue for every prime < 2^11; thorough: 2^15 / 2^14); "
         "non-trivial = every request except operands 0/1; distinct by request line")
 MODELLED = [
     "arith::Dividers::{new,modu16,divmod64,modu63,modi64,mod_u128,mod_uint,divmod_uint,divmod_uint_inplace} word-exact (Ymq/Model/Dividers.lean)",
@@ -128,7 +131,7 @@ def mk(line, tag=""):
         p = int(a[0])
         x = int(a[1]) if op == "inverter" else 1
         if p == 2:
-            o = False                              # dummy table, invert returns x % 2
+            pass                                   # dummy table, invert returns x % 2 (theorem invert_two)
         elif not div_ok(p) or x == 0:
             pass                                   # panics in both profiles, oracle expects that
         elif p >> 28 or p % 2 == 0 or math.gcd(x, p) != 1:
@@ -289,10 +292,7 @@ def cases(tier, rng, extended=False):
     for p in bad:
         yield mk(f"div_divmod64 {p} 12345")
     # ---------------- Dividers: whole domains inside the harness
-    p16 = list(small)
-    rest = [p for p in PRIMES16 if p >= 1 << 12]
-    p16 += rest if not quick else rng.sample(rest, 300) + rest[-3:]
-    for p in p16 + [6, 9, 15, 255, 65535, 21845, 1023, 65533]:
+    for p in PRIMES16 + [6, 9, 15, 255, 65535, 21845, 1023, 65533]:    # every prime below 2^16, both tiers
         yield mk(f"div_modu16_all {p}")
     cnt = 300 if quick else 200000
     for p in small:
@@ -301,7 +301,7 @@ def cases(tier, rng, extended=False):
         yield mk(f"div_sweep {p} {rng.getrandbits(32)} {cnt * 20 * mult}")
 
     # ---------------- Inverter
-    for p in [q for q in PRIMES16 if q < (1 << 10 if quick else 1 << 15)]:
+    for p in [q for q in PRIMES16 if q < (1 << 12 if quick else 1 << 15)]:
         yield mk(f"inverter_all {p}")
     for p in [q for q in PRIMES16 if q < 64]:
         yield mk(f"inverter_new {p}")
@@ -326,12 +326,13 @@ def cases(tier, rng, extended=False):
             yield mk(f"inverter {p} {x}")
         yield mk(f"inverter {p} {p + 2}")                      # x >= p: K only
     for line in ("inverter 9 3", "inverter 15 5", "inverter 9 2", "inverter 268435459 5", "inverter 1073741789 3",
-                 "inverter_new 268435459", "inverter 6 1", "inverter 8 3", "inverter 2 0", "inverter 2 7",
+                 "inverter_new 268435459", "inverter 6 1", "inverter 8 3", "inverter 2 0", "inverter 2 7", "inverter 2 1",
+                 "inverter 2 2", "inverter 2 4294967295", "inverter 2 4294967294",
                  "inverter_new 2", "inverter_new 1", "inverter_new 0"):
         yield mk(line)
 
     # ---------------- sqrt_mod
-    lim = 1 << 9 if quick else 1 << 14
+    lim = 1 << 11 if quick else 1 << 14
     for p in [q for q in PRIMES16 if q < lim]:
         yield mk(f"sqrt_mod_all {p}")
     for p in [q for q in PRIMES16 if q < 64]:
@@ -506,6 +507,8 @@ def oracle(case, ans):
         return None if ok else f"table entry is not -2^-(8j+8) mod p: {ans}"
     if op == "inverter":
         p, x = int(a[0]), int(a[1])
+        if p == 2:
+            return None if ans == str(x % 2) else f"invert mod 2 must return x % 2: {ans}"
         if not div_ok(p) or x == 0:
             return None if ans == "panic" else f"expected a panic: {ans}"
         r = _nums(ans, 1)
@@ -552,7 +555,11 @@ def oracle(case, ans):
             return f"None although n is a perfect power with exponent {bad[0]}" if bad else None
         if ans.startswith("some "):
             v = _nums(ans[5:], 2)
-            return None if v and v[1] >= 2 and v[0] ** v[1] == n else f"r^k != n: {ans}"
+            if not (v and v[1] >= 2 and v[0] ** v[1] == n):
+                return f"r^k != n: {ans}"
+            # the recursion on the root: for n >= 2 the returned root is not an e-th power for a tried e
+            bad = [e for e in EXPS if n >= 2 and iroot(v[0], e) ** e == v[0]]
+            return f"returned root {v[0]} is itself a perfect power (exponent {bad[0]})" if bad else None
         return f"no value returned ({ans})"
 
     if op in ("isqrt", "isqrt_uint", "squfof_isqrt"):
@@ -667,12 +674,16 @@ def nontrivial(case, ans):
 CLAIM = ("Lean theorems for all inputs of the word-exact models: Dividers::new accepts exactly p = 2 and 3 <= p < 2^30 not a "
          "power of two and its reciprocals satisfy 0 < m*p - 2^s <= p; divmod64 / modu63 / modu16 / modi64 / mod_u128 / "
          "mod_uint / divmod_uint return the exact quotient and remainder for every operand without reaching a panic site; "
-         "Inverter::invert terminates and returns the inverse for every odd 3 <= p < 2^28 and 0 < x < p coprime to p; "
-         "pow_mod = n^k mod p; sqrt_mod returns a root exactly when one exists (prime p = 3 mod 4 or p < 2^24, square fits "
-         "the type); inv_mod64 is exact on all of u64 x u64 (p > 0); perfect_power / isqrt meet their specifications over "
-         "a floor-root specification function. The models are tied to the code by differential runs in both build "
-         "profiles (every branch label of the models is reached) and a Python big-integer oracle judges every "
-         "implementation answer, including whole finite domains through bulk requests.")
+         "Inverter::invert terminates and returns the inverse for every odd 3 <= p < 2^28 and 0 < x < p coprime to p, and "
+         "returns x % 2 for p = 2 (dummy table); pow_mod = n^k mod p; sqrt_mod returns a root exactly when one exists "
+         "(prime p = 3 mod 4 or p < 2^24, square fits the type); inv_mod64 is exact on all of u64 x u64 (p > 0); "
+         "squfof::isqrt returns the floor square root whenever its loop exits. perfect_power (r^k = n, k >= 2, root not a "
+         "perfect power for the tried exponents, None only for non-powers, termination) is proved RELATIVE TO the floor-root "
+         "specification function nthRoot; nth_root_spec / isqrt_spec are facts about that specification function, not about "
+         "code: the library root routines (num_integer / bnum nth_root, sqrt = arith::isqrt) are tied by K/O only. "
+         "The models are tied to the code by differential runs in both build profiles (every branch label of the models "
+         "is reached) and a Python big-integer oracle judges every implementation answer, including whole finite domains "
+         "through bulk requests.")
 LEVEL_NOTE = ("Trusted: Lean kernel (+propext, Classical.choice, Quot.sound), the hand-written models' correspondence to the "
               "Rust code (sampled by the harness, not proved), Python integers in the oracle. bnum operators and "
               "num_integer roots are modelled as Nat arithmetic / floor roots; termination of squfof::isqrt from its "
